@@ -1,6 +1,7 @@
 import Lean.Data.Json
 import Driver.Common
 import Model.Elab
+import Model.Scenarios
 import Proofs.WFCheck
 import Proofs.Containers
 import Proofs.Aligned
@@ -512,7 +513,25 @@ def runIntruder (j : Json) : Json :=
   Json.mkObj [("is_ext", Json.bool isExt), ("applies", Json.bool applies), ("agree", Json.bool agree),
               ("added_scheduled", Json.bool (σ'.tst n).scheduled)]
 
-def jsonOps : List (String × (Json → Json)) := [("sched", runSched), ("intruder", runIntruder)]
+def jOverride (x : Json) : Option Override :=
+  match jNatF? x "task" with
+  | some t => some { task := t, effort := (jField? x "effort").bind jRat?, start := jIntF? x "start", stop := jIntF? x "stop" }
+  | none => none
+
+/-- C16: the model's `projection` of the base project under a scenario's override list against the single-scenario
+    project the harness wrote for that scenario (the text the real code is run on): are they the same raw project? -/
+def runProj (j : Json) : Json :=
+  let b := parseProj (j.getObjValD "base")
+  let want := parseProj (j.getObjValD "want")
+  let ovs := (jArr j "ovs").filterMap jOverride
+  let got := projection b ovs
+  let same := reprStr got == reprStr want
+  let first := (List.range (max got.tasks.length want.tasks.length)).find? (fun i => reprStr (got.tasks[i]?) != reprStr (want.tasks[i]?))
+  Json.mkObj [("same", Json.bool same), ("tasks", Json.num (JsonNumber.fromNat got.tasks.length)),
+              ("overrides", Json.num (JsonNumber.fromNat ovs.length)),
+              ("first", match first with | some i => Json.num (JsonNumber.fromNat i) | none => Json.null)]
+
+def jsonOps : List (String × (Json → Json)) := [("sched", runSched), ("intruder", runIntruder), ("proj", runProj)]
 
 def handleJson (ops : List (String × (Json → Json))) (line : String) : String :=
   match Json.parse line with
